@@ -219,11 +219,6 @@ function hdump(o){
   var ks = Reflect.ownKeys(o), out = [];
   for (var i = 0; i < ks.length; i++) out.push(hcanon(ks[i]) + ":" + hdesc(Reflect.getOwnPropertyDescriptor(o, ks[i])));
   return "ext=" + Reflect.isExtensible(o) + " proto=" + hcanon(Reflect.getPrototypeOf(o)) + " {" + out.join(" ") + "}"; }
-function hNonConfAccessor(o, k){
-  var ks = k === undefined ? Reflect.ownKeys(o) : [k];
-  for (var i = 0; i < ks.length; i++){ var d = Reflect.getOwnPropertyDescriptor(o, ks[i]);
-    if (d && ("get" in d) && !d.configurable) return true; }
-  return false; }
 function runHist(cs, mkGo){
   var c = JSON.parse(cs);
   var A = hmk(c.target), B = hmk(c.target), inner = [B], P = B;
@@ -240,27 +235,21 @@ function runHist(cs, mkGo){
     if (x === String.prototype) return "StrP";
     return typeof x === "function" ? "fn?" : "obj?"; };
   hdump(A); hdump(B); /* warm-up: lazy function properties */
-  var da = [], dp = [], ok = [], f6 = true, firstDiff = -1, firstBad = -1;
+  var da = [], dp = [], ok = [], firstDiff = -1;
   for (var j = 0; j < c.ops.length; j++){
     var op = c.ops[j], ra, rp, la = [], lp = [];
-    var f6key = (op.o === "gopd" || op.o === "define") ? HKEYS[op.k|0] : undefined;
-    var f6shape = hNonConfAccessor(A, f6key);
     curLog = la; try { ra = hop(A, op, recvA); } catch (e) { ra = herr(e); }
     curLog = lp; try { rp = hop(P, op, recvB); } catch (e) { rp = herr(e); }
-    f6shape = f6shape || hNonConfAccessor(A, f6key);   /* the operation itself may have made it non-configurable */
     ra = op.o + ":" + ra + "|" + la.join(","); rp = op.o + ":" + rp + "|" + lp.join(",");
     da.push(ra); dp.push(rp);
-    if (ra !== rp){ if (firstDiff < 0) firstDiff = j;
-      if (!(f6shape && rp.indexOf(op.o + ":TypeError") === 0 && ra.indexOf(op.o + ":TypeError") !== 0 &&
-            ["gopd", "define", "keys", "prevext", "isext", "set"].indexOf(op.o) >= 0)){ if (f6) firstBad = j; f6 = false; } }
+    if (ra !== rp && firstDiff < 0) firstDiff = j;
     if (/^(define|set|delete|prevext|setproto):(T|ok)/.test(ra)) ok.push(op.o);
     if (firstDiff >= 0) break; /* after a divergence the two states differ: later observations are consequences */ }
   curLog = [];
   var fa = "final:" + (firstDiff >= 0 ? "-" : hdump(A)), fb = "final:" + (firstDiff >= 0 ? "-" : hdump(B));
   da.push(fa); dp.push(fb);
-  if (fa !== fb){ if (f6) firstBad = c.ops.length; f6 = false; if (firstDiff < 0) firstDiff = c.ops.length; }
-  if (!f6) firstDiff = firstBad;
-  return JSON.stringify({direct: da, proxied: dp, mutated: ok.length, firstDiff: firstDiff, f6: f6}); }
+  if (fa !== fb && firstDiff < 0) firstDiff = c.ops.length;
+  return JSON.stringify({direct: da, proxied: dp, mutated: ok.length, firstDiff: firstDiff}); }
 function runRev(cs, mkGoRevoked){
   var c = JSON.parse(cs), t = hmk(c.target), p;
   nameOf = function(){ return "x"; }; curLog = [];
@@ -430,13 +419,13 @@ type histOut struct {
 	Proxied   []string `json:"proxied"`
 	Mutated   int      `json:"mutated"`
 	FirstDiff int      `json:"firstDiff"`
-	F6        bool     `json:"f6"`
 }
 
 func coqNList(ss []string) string {
 	var it []string
 	for _, s := range ss {
-		it = append(it, fmt.Sprintf("%d%%N", histHash(s)))
+		h := histHash(s)
+		it = append(it, fmt.Sprintf("(hk n%d n%d n%d n%d)", h%1000, (h/1000)%1000, (h/1000000)%1000, (h/1000000000)%1000))
 	}
 	return vh.CoqList(it)
 }
@@ -473,10 +462,6 @@ func histRun(c HistCase) vh.Record {
 			d, p = o.Direct[o.FirstDiff], o.Proxied[o.FirstDiff]
 		}
 		prefix := "DIFF:"
-		if o.F6 {
-			prefix = "F6:"
-			tags = append(tags, "f6")
-		}
 		obs = fmt.Sprintf("%s first difference at op %d: direct=%.300s proxied=%.300s", prefix, o.FirstDiff, d, p)
 	}
 	return vh.Record{
